@@ -531,6 +531,27 @@ func checkCase(c Case) error {
 		return vt.Violationf(cls+":decodefrom-changed", "DecodeFrom(%v <- bytes of %v) of %s: %v", dn.typ, src.Type(), c.Desc, err)
 	}
 
+	// EncodeInto: the source value encoded as if it were of the destination type
+	var ebuf bytes.Buffer
+	eerr, p := func() (err error, p interface{}) {
+		defer func() { p = recover() }()
+		return conversion.EncodeInto(encoding.NewEncoder(encoding.DefaultCap(), &ebuf), src.Interface(), dn.typ), nil
+	}()
+	if p != nil {
+		return vt.Violationf(cls+":encodeinto-panic", "EncodeInto(%v as %v) panicked: %v", src.Type(), dn.typ, p)
+	}
+	if eerr != nil {
+		return vt.Violationf(cls+":encodeinto-refused", "EncodeInto(%v as %v) of %s failed: %v", src.Type(), dn.typ, c.Desc, eerr)
+	}
+	dst4 := reflect.New(dn.typ)
+	er := bytes.NewReader(ebuf.Bytes())
+	if err := encoding.NewDecoder(encoding.DefaultCap(), er).Decode(dst4.Interface()); err != nil || er.Len() != 0 {
+		return vt.Violationf(cls+":encodeinto-changed", "EncodeInto(%v as %v) of %s wrote %x, which does not decode as a %v (%v, %d bytes left)", src.Type(), dn.typ, c.Desc, ebuf.Bytes(), dn.typ, err, er.Len())
+	}
+	if err := same(dst4.Elem(), want); err != nil {
+		return vt.Violationf(cls+":encodeinto-changed", "EncodeInto(%v as %v) of %s: %v\n got  %v\n want %v", src.Type(), dn.typ, c.Desc, err, dst4.Elem(), want)
+	}
+
 	// Proxy.Call2: the caller's side of the same conversion. The remote method
 	// announces the source signature and answers with the reference bytes; the
 	// caller expects the destination signature and hands in a destination value.
